@@ -1,10 +1,16 @@
 package props
 
 import (
+	"bytes"
 	"fmt"
 	"go/token"
 	"go/types"
+	"os"
+	"os/exec"
+	"path/filepath"
+	"regexp"
 	"sort"
+	"strconv"
 	"strings"
 	"time"
 
@@ -138,6 +144,9 @@ func runC03(c *core.Ctx) {
 	t2 := time.Now()
 	checkAllocs(c, "C03-ALLOC", fns, scope)
 	c.Note("timing: sites %.1fs loops %.1fs allocs %.1fs", t1.Sub(t0).Seconds(), t2.Sub(t1).Seconds(), time.Since(t2).Seconds())
+	if c.Tier == "thorough" {
+		bceCrossCheck(c, fns)
+	}
 	for _, p := range ps.list {
 		if p.Dec != nil {
 			truncRule(c, p)
@@ -600,4 +609,78 @@ func paramBoundedAtCallers(c *core.Ctx, fn *ssa.Function, prm *ssa.Parameter, sc
 		}
 	}
 	return "bounded at every caller", true
+}
+
+var bceLine = regexp.MustCompile(`^(\S+\.go):(\d+):(\d+): Found (IsInBounds|IsSliceInBounds)`)
+
+// bceCrossCheck (thorough tier): completeness of the site enumeration against an independent source. The compiler is asked
+// (-d=ssa/check_bce) which bounds checks its own prove pass could not remove; every one that lies inside a function of
+// the decode scope must be on a line for which checkSites emitted an obligation. The compiler output decides nothing about
+// the property; it only shows that no index/slice site was overlooked by the enumeration.
+func bceCrossCheck(c *core.Ctx, fns []*ssa.Function) {
+	cmd := exec.Command("go", "build", "-gcflags=-l -d=ssa/check_bce/debug=1", "./...")
+	cmd.Dir = c.Prog.Dir
+	cmd.Env = append(os.Environ(), "GOFLAGS=-mod=mod", "GOPROXY=off", "GOSUMDB=off", "GOTOOLCHAIN=local", "GOWORK=off")
+	out, err := cmd.CombinedOutput()
+	if err != nil && !bytes.Contains(out, []byte("Found Is")) {
+		c.Unknown("C03-BCE", "compiler", "", "go build -d=ssa/check_bce failed: "+err.Error()+": "+string(out[:min(len(out), 300)]))
+		return
+	}
+	siteLines := map[string]bool{}
+	for _, o := range c.Obligations() {
+		if o.Rule == "C03-PANIC" && o.Pos != "" {
+			siteLines[o.Pos] = true
+		}
+	}
+	type span struct {
+		file     string
+		from, to int
+		fn       *ssa.Function
+	}
+	var spans []span
+	fset := c.Prog.SSA().Fset
+	for _, fn := range fns {
+		if fn.Syntax() == nil {
+			continue
+		}
+		a, b := fset.Position(fn.Syntax().Pos()), fset.Position(fn.Syntax().End())
+		rel, err := filepath.Rel(c.Prog.Dir, a.Filename)
+		if err != nil {
+			continue
+		}
+		spans = append(spans, span{rel, a.Line, b.Line, fn})
+	}
+	total, inScope, missing := 0, 0, 0
+	for _, line := range strings.Split(string(out), "\n") {
+		m := bceLine.FindStringSubmatch(strings.TrimSpace(line))
+		if m == nil {
+			continue
+		}
+		total++
+		ln, _ := strconv.Atoi(m[2])
+		var owner *ssa.Function
+		for _, s := range spans {
+			if s.file == m[1] && ln >= s.from && ln <= s.to {
+				if owner == nil || s.to-s.from < 1<<30 {
+					owner = s.fn
+				}
+			}
+		}
+		if owner == nil {
+			continue
+		}
+		inScope++
+		pos := m[1] + ":" + m[2]
+		if !siteLines[pos] {
+			missing++
+			c.Unknown("C03-BCE", funcKey(owner)+"#"+m[4]+"@"+m[1], pos, "the compiler keeps a bounds check ("+m[4]+") at this line of a decode-reachable function, but the site enumeration has no obligation there")
+		}
+	}
+	c.Count("compiler_bounds_checks_total", total)
+	c.Count("compiler_bounds_checks_in_scope", inScope)
+	if total == 0 {
+		c.Unknown("C03-BCE", "compiler", "", "the compiler reported no bounds checks at all (flag not honoured?)")
+	} else if missing == 0 {
+		c.OK("C03-BCE", "enumeration-complete", "", fmt.Sprintf("all %d compiler-retained bounds checks inside the %d scope functions lie on lines with a C03-PANIC obligation (%d module-wide)", inScope, len(fns), total))
+	}
 }
